@@ -16,6 +16,7 @@ A transition whose history already left the implementation in a wrong state is n
 is blamed). thorough adds `tlc -simulate` behaviours of 12 steps with larger bounds.
 """
 import json
+import re
 import os
 import vlib
 
@@ -57,8 +58,16 @@ def signature(case, what, extra=None):
     return "%s|%s|%s|%s|%s|%s" % (PID, container(case), case["op"]["op"], case["ty"], what, detail)
 
 
+_NUM0 = re.compile(r"(?<![\w.])(-?\d+)\.0(?!\d)")
+
+
+def norm(text):
+    """DESIGN 7.1: whether a float prints with `.0` is an artefact of the Lua version, not a Sylt property: 2.0 = 2"""
+    return _NUM0.sub(r"\1", text) if isinstance(text, str) else text
+
+
 def differs(l):
-    return l["want"] != l["got"]
+    return norm(l["want"]) != norm(l["got"])
 
 
 def classify(case, res):
